@@ -80,7 +80,7 @@ def custom : Parser (Out Bmp) :=
   Parser.bind sectionHeader fun pdata =>
   Parser.bind (guard (decide (pdata.1 = tagData ∧ pdata.2 = paletteSectionSize))) fun _ =>
   -- CreateIndexed(uint16_t(bitDepth), pixelWidth, int32_t(pixelHeight * -1))
-  match createShape (bd % W16) pw (Op2.i32 ((ph * (W32 - 1)) % W32)) with
+  match createShape (bd % W16) pw (Op2.i32 (((W32 - 1) * ph) % W32)) with
   | .fault g => Parser.pure (.fault g)
   | .err e => Parser.fail e
   | .ok bm =>
